@@ -48,7 +48,7 @@ ASSUMPTIONS = ['Python sorted() on the names is the order of the generated table
                '(cffi keeps four tables); API-mode modules get one role per name']
 BUDGET = {'quick': 480, 'thorough': 30000}
 MIN_PER_SHARD = 10
-TIME = {'quick': 30, 'thorough': 800}
+TIME = {'quick': 15, 'thorough': 800}
 
 ALPHA = 'abAB_01'
 SMALL_ALPHA = 'Aa_0'
@@ -229,7 +229,8 @@ def strategy(ctx):
         return st.fixed_dictionaries({
             'names': st.just(ns),
             'probes': st.lists(st.text(ALPHA, min_size=1, max_size=8), max_size=6),
-            'api': (st.integers(0, 19).map(lambda i: i == 0) if ctx.tier == 'thorough' else st.just(False)),
+            # an API-mode build costs a gcc run: about one case in 20, thorough tier only
+            'api': (st.sampled_from([False] * 19 + [True]) if ctx.tier == 'thorough' else st.just(False)),
         })
     return names().flatmap(with_probes)
 
@@ -264,7 +265,7 @@ def _abi_module(names, k, tmp):
     import cffi
     lines = []
     for i, n in enumerate(names):
-        lines.append('struct %s { char a[%d]; };' % (n, i + 1))
+        lines.append('struct %s { char Qf[%d]; };' % (n, i + 1))
         lines.append('enum %s { %s = %d };' % (n, _enumerator(i), i + 1))
     for i, n in enumerate(names):
         lines.append('typedef char %s[%d];' % (n, i + 1))
@@ -321,7 +322,7 @@ def _api_module(names, roles, ctx):
         elif r == 't':
             cdef.append('typedef char %s[%d];' % (n, i + 1)); csrc.append('typedef char %s[%d];' % (n, i + 1))
         elif r == 's':
-            cdef.append('struct %s { char a[%d]; };' % (n, i + 1)); csrc.append('struct %s { char a[%d]; };' % (n, i + 1))
+            cdef.append('struct %s { char Qf[%d]; };' % (n, i + 1)); csrc.append('struct %s { char Qf[%d]; };' % (n, i + 1))
         else:
             cdef.append('enum %s { %s = %d };' % (n, _enumerator(i), i + 1))
             csrc.append('enum %s { %s = %d };' % (n, _enumerator(i), i + 1))
@@ -350,28 +351,31 @@ def _check(ffi, lib, names, probes, roles, ctx, detail):
     for i, n in enumerate(names):
         v = i + 1
         r = roles[n]
-        if 't' in r:
-            t = ffi.typeof(n)
-            if t.kind != 'array' or t.length != v:
-                ctx.fail('typedef %r resolves to %r, expected char[%d]' % (n, t, v), **detail)
-            if ffi.typeof(n + ' *').item is not t or ffi.typeof(n + '*').item is not t:
-                ctx.fail('typedef %r followed by "*" does not resolve to the same entry' % n, **detail)
-        if 's' in r:
-            if ffi.sizeof('struct ' + n) != v or ffi.sizeof('struct %s[2]' % n) != 2 * v:
-                ctx.fail('struct %r has size %d, expected %d' % (n, ffi.sizeof('struct ' + n), v), **detail)
-        if 'e' in r:
-            t = ffi.typeof('enum ' + n)
-            if t.relements != {_enumerator(i): v} or ffi.typeof('enum %s*' % n).item is not t:
-                ctx.fail('enum %r resolves to %r %r, expected {%s: %d}' % (n, t, t.relements, _enumerator(i), v), **detail)
-            if ffi.integer_const(_enumerator(i)) != v or getattr(lib, _enumerator(i)) != v:
-                ctx.fail('enumerator %s of enum %r has a wrong value' % (_enumerator(i), n), **detail)
-        if 'c' in r:
-            if ffi.integer_const(n) != v:
-                ctx.fail('integer_const(%r) = %r, expected %d' % (n, ffi.integer_const(n), v), **detail)
-            if getattr(lib, n) != v:
-                ctx.fail('lib.%s = %r, expected %d' % (n, getattr(lib, n), v), **detail)
-            if ffi.typeof('char[%s]' % n).length != v:
-                ctx.fail('array length constant %r resolves to %r' % (n, ffi.typeof('char[%s]' % n).length), **detail)
+        try:
+            if 't' in r:
+                t = ffi.typeof(n)
+                if t.kind != 'array' or t.length != v:
+                    ctx.fail('typedef %r resolves to %r, expected char[%d]' % (n, t, v), **detail)
+                if ffi.typeof(n + ' *').item is not t or ffi.typeof(n + '*').item is not t:
+                    ctx.fail('typedef %r followed by "*" does not resolve to the same entry' % n, **detail)
+            if 's' in r:
+                if ffi.sizeof('struct ' + n) != v or ffi.sizeof('struct %s[2]' % n) != 2 * v:
+                    ctx.fail('struct %r has size %d, expected %d' % (n, ffi.sizeof('struct ' + n), v), **detail)
+            if 'e' in r:
+                t = ffi.typeof('enum ' + n)
+                if t.relements != {_enumerator(i): v} or ffi.typeof('enum %s*' % n).item is not t:
+                    ctx.fail('enum %r resolves to %r %r, expected {%s: %d}' % (n, t, t.relements, _enumerator(i), v), **detail)
+                if ffi.integer_const(_enumerator(i)) != v or getattr(lib, _enumerator(i)) != v:
+                    ctx.fail('enumerator %s of enum %r has a wrong value' % (_enumerator(i), n), **detail)
+            if 'c' in r:
+                if ffi.integer_const(n) != v:
+                    ctx.fail('integer_const(%r) = %r, expected %d' % (n, ffi.integer_const(n), v), **detail)
+                if getattr(lib, n) != v:
+                    ctx.fail('lib.%s = %r, expected %d' % (n, getattr(lib, n), v), **detail)
+                if ffi.typeof('char[%s]' % n).length != v:
+                    ctx.fail('array length constant %r resolves to %r' % (n, ffi.typeof('char[%s]' % n).length), **detail)
+        except err as e:
+            ctx.fail('declared name %r is not found by the lookup: %s: %s' % (n, type(e).__name__, e), **detail)
     undeclared = list(probes)
     for n in names:                       # a declared name must not be found in a table where it has no role
         undeclared.append(n)
